@@ -6,38 +6,38 @@ ENV = "GOFLAGS=-mod=mod GOPROXY=off GOSUMDB=off GOTOOLCHAIN=local GOWORK=off"
 
 # id -> (technique, level text, level note, design section)
 CHECKS = {
- "C01": ("who-may-call + provenance (SSA) + dominance pairing + config evaluation",
-         "All-paths structural necessary conditions for append-only records: only AddRecord/InitGenesis reach a Set under the record prefix, nothing deletes records/topics/owners, offset = TotalRecords of the topic read under the same key, that topic is stored back with TotalRecords+1 on every success path, response reports the same offset, aol store key owned by the aol keeper and untouched by upgrades. Decides the code shape, not runtime behaviour.",
+ "C01": ("who-may-call + provenance (SSA) + dominance pairing + config evaluation; loop-fresh decode targets (cycle membership of allocations)",
+         "All-paths structural necessary conditions for append-only records: only AddRecord/InitGenesis reach a Set under the record prefix, nothing deletes records/topics/owners, offset = TotalRecords of the topic read under the same key, that topic is stored back with TotalRecords+1 on every success path, response reports the same offset, aol store key owned by the aol keeper and untouched by upgrades. Decides the code shape, not runtime behaviour. List accessors decode every entry into a variable that is fresh or reset in each iteration.",
          "Trusts SDK store/prefix/baseapp semantics, protobuf round trip, go/ssa; InitGenesis input is trusted."),
  "C02": ("guard dominance (path conditions over SSA) + provenance + sibling agreement + ante-chain evaluation",
          "Every AOL store mutation is dominated on all paths by the membership/existence guard on the same key datum; the authorising identity is parsed from a message field GetSigners returns on every path; mutators callable only from handlers/InitGenesis; ante chain has ValidateBasic<SetPubKey<SigVerification<IncrementSequence and is installed by New.",
          "Trusts SigVerificationDecorator, authz MsgExec, baseapp message cache (rejected attempts leave no trace)."),
- "C13": ("must-call pairing + guard dominance + provenance of listing prefixes",
-         "Counter updates are paired with the entry write on every success path, read and written under the same key, change one counter by one, copy all other fields and are guarded against double counting; listing prefix = family prefix ++ PartialEncode(key, n-1) with fixed components from the request and the callback decodes prefix++suffix with the same key type.",
+ "C13": ("must-call pairing + guard dominance + provenance of listing prefixes; loop-fresh decode targets",
+         "Counter updates are paired with the entry write on every success path, read and written under the same key, change one counter by one, copy all other fields and are guarded against double counting; listing prefix = family prefix ++ PartialEncode(key, n-1) with fixed components from the request and the callback decodes prefix++suffix with the same key type. List accessors decode into per-iteration variables.",
          "Trusts query.Paginate; prefix exactness relies on C18's decided clauses."),
- "C03": ("guard dominance + argument provenance of the ownership proof + body analysis of proof/verify/lookup functions",
-         "Every DID write in a handler is dominated by proof(...).err==nil; the proof looks keys up in the stored document read under the written key (or the submitted one on create), signs the document that gets stored, and internally succeeds only via doc.Authentications lookup, the exact secp256k1 key-type gate, decoded key and VerifySignature over Marshal(DataWithSeq{Marshal(data), seq}). Functions are found by role (reachability to PubKey.VerifySignature), not by name.",
+ "C03": ("guard dominance + argument provenance of the ownership proof + body analysis of proof/verify/lookup functions; store-key ownership",
+         "Every DID write in a handler is dominated by proof(...).err==nil; the proof looks keys up in the stored document read under the written key (or the submitted one on create), signs the document that gets stored, and internally succeeds only via doc.Authentications lookup, the exact secp256k1 key-type gate, decoded key and VerifySignature over Marshal(DataWithSeq{Marshal(data), seq}). Functions are found by role (reachability to PubKey.VerifySignature), not by name. The did store key is handed to the did keeper constructor only.",
          "Trusts cometbft secp256k1, base58, gogoproto marshalling."),
- "C04": ("provenance of stored/consumed sequence terms through handler, proof and verify functions",
-         "Stored sequence = 0 on create and = proof(...)[0] otherwise; the proof consumes the Sequence field of the entry read under the written key; proof returns verify's result unchanged; verify returns seq+1 of the seq inside the signed bytes; the query returns the stored entry unmodified. Replay rejection follows on paper from these.",
+ "C04": ("provenance of stored/consumed sequence terms through handler, proof and verify functions; store-key ownership",
+         "Stored sequence = 0 on create and = proof(...)[0] otherwise; the proof consumes the Sequence field of the entry read under the written key; proof returns verify's result unchanged; verify returns seq+1 of the seq inside the signed bytes; the query returns the stored entry unmodified. Replay rejection follows on paper from these. The did store key is handed to the did keeper constructor only.",
          "Trusts signature unforgeability/non-malleability; ignores uint64 wrap."),
- "C05": ("predicate expansion by path enumeration + truth-table entailment over entry-state atoms; who-may-call; loop shape",
-         "Path condition at each write, with Empty/Deactivated expanded to {Document==nil, Id==\"\", Sequence==0}, excludes active/tombstone for creates and entails active for updates/deactivates; no Delete on the DID store; query succeeds only for active entries; genesis export/import/list loops have no conditional skip.",
+ "C05": ("predicate expansion by path enumeration + truth-table entailment over entry-state atoms; who-may-call; loop shape; store-key ownership; provenance of the looked-up identifier",
+         "Path condition at each write, with Empty/Deactivated expanded to {Document==nil, Id==\"\", Sequence==0}, excludes active/tombstone for creates and entails active for updates/deactivates; no Delete on the DID store; query succeeds only for active entries; genesis export/import/list loops have no conditional skip. The did store key is handed to the did keeper only; the read operation looks up exactly the requested identifier.",
          "Trusts store semantics and proto round trip of an empty sub-message."),
- "C11": ("validation coverage: dominating equality fact on every accepting path of ValidateBasic or in the handler",
-         "For every handler storing a caller-supplied document under msg.Did, msg.Did == msg.Document.Id is established on every nil-returning path of the message's ValidateBasic or before the write; deactivation signs DIDDocument{Id: msg.Did}. Decided in full for messages (presence-on-every-path property).",
+ "C11": ("validation coverage: dominating equality fact on every accepting path of ValidateBasic or in the handler; store-key ownership; provenance of the looked-up identifier",
+         "For every handler storing a caller-supplied document under msg.Did, msg.Did == msg.Document.Id is established on every nil-returning path of the message's ValidateBasic or before the write; deactivation signs DIDDocument{Id: msg.Did}. Decided in full for messages (presence-on-every-path property). The read operation looks up exactly the base64-decoded request field, untransformed.",
          "Trusts baseapp running ValidateBasic before handlers; genesis files are trusted input."),
- "C06": ("interprocedural guard dominance with argument substitution (handler vocabulary) + sibling agreement with GetSigners + who-may-call",
-         "Every x/nft mutator call / raw pnft store write reached from a PNFT handler is dominated along the call chain by actor == owner-lookup(ids).Owner, the actor is the field GetSigners returns, the mutated resource is the one looked up, updates never re-key a denom and change its owner only in the hand-over schema, owner lookups read x/nft's stored records, x/nft mutators are used only by the pnft keeper.",
+ "C06": ("interprocedural guard dominance with argument substitution (handler vocabulary) + sibling agreement with GetSigners + who-may-call; store-key ownership",
+         "Every x/nft mutator call / raw pnft store write reached from a PNFT handler is dominated along the call chain by actor == owner-lookup(ids).Owner, the actor is the field GetSigners returns, the mutated resource is the one looked up, updates never re-key a denom and change its owner only in the hand-over schema, owner lookups read x/nft's stored records, x/nft mutators are used only by the pnft keeper. The pnft store key is handed to the pnft keeper constructor only.",
          "Trusts x/nft keeper internals, authz, signature verification."),
- "C12": ("reachability of token-data writers + provenance of minted literal + guard dominance (supply==0) + request-field use + regex/byte-language analysis of validators + sibling agreement of views",
-         "Only Mint writes token data (from the mint handler, with request-derived content and block time); class delete is dominated by GetTotalSupply(sameId)==0; every query request field is used; identifiers entering x/nft's delimiter-joined keys exclude the delimiter byte on every accepting path of ValidateBasic; the three token views agree field by field.",
+ "C12": ("reachability of token-data writers + provenance of minted literal + guard dominance (supply==0) + request-field use + regex/byte-language analysis of validators + sibling agreement of views; store-key ownership",
+         "Only Mint writes token data (from the mint handler, with request-derived content and block time); class delete is dominated by GetTotalSupply(sameId)==0; every query request field is used; identifiers entering x/nft's delimiter-joined keys exclude the delimiter byte on every accepting path of ValidateBasic; the three token views agree field by field. The pnft store key is handed to the pnft keeper constructor only.",
          "Trusts x/nft owner index and iterators; genesis identifiers are trusted input."),
- "C07": ("must-call on all paths + provenance equalities in the burn function + configuration evaluation + who-may-call of bank mutators",
-         "EndBlock always runs the burn with the constant burn address and swallows its error (no panic); Coins sent = Coins burned = SpendableCoins of the sender parsed from that address; same module constant on both calls; early return only when that datum is empty; Burner permission, end-blocker order, manager registration and keeper construction are wired; coin-moving bank methods are called only from the burn keeper.",
+ "C07": ("must-call on all paths + provenance equalities in the burn function + configuration evaluation + who-may-call of bank mutators; library-precondition obligations on the burn path (narrowing, division); reachability from registered invariants; blocked-address evaluation",
+         "EndBlock always runs the burn with the constant burn address and swallows its error (no panic); Coins sent = Coins burned = SpendableCoins of the sender parsed from that address; same module constant on both calls; early return only when that datum is empty; Burner permission, end-blocker order, manager registration and keeper construction are wired; coin-moving bank methods are called only from the burn keeper. No unguarded Int64()/division on the burn path; no module-registered invariant reads the burn balance while crisis precedes burn; the burn module account's address stays blocked.",
          "Trusts the bank keeper (supply accounting, SpendableCoins/SendCoins), crisis invariants, module manager dispatch."),
- "C19": ("evaluation of the literal upgrade/store configuration + exhaustiveness + definite-edge reachability from upgrade packages",
-         "Every mounted store belongs to a module predating the first descriptor or is Added (and not later Deleted) by a registered descriptor; names distinct; handler and store-loader loops cover the whole Upgrades slice and run in New after manager/configurator; ConsensusVersion n has n-1 migrations; upgrade packages reach no aol/did/pnft store mutator.",
+ "C19": ("evaluation of the literal upgrade/store configuration + exhaustiveness + definite-edge reachability from upgrade packages; provenance of the store loader's argument; reads-plus-failure scan of upgrade packages",
+         "Every mounted store belongs to a module predating the first descriptor or is Added (and not later Deleted) by a registered descriptor; names distinct; handler and store-loader loops cover the whole Upgrades slice and run in New after manager/configurator; ConsensusVersion n has n-1 migrations; upgrade packages reach no aol/did/pnft store mutator. The store loader gets the matched descriptor's own StoreUpgrades; upgrade code that reads custom data creates no error and does not panic.",
          "Trusts x/upgrade, store loader, RunMigrations; does not execute the upgrade block."),
  "C16": ("abstract interpretation of validators (length interval × regular language) + exact regular-language equality (product automaton) against two oracles + propositional equivalence of ValidateBasic's accept condition with the documented constraints",
          "For all 14 messages the accept condition of ValidateBasic is equivalent to the conjunction of the documented per-field limits (both directions), with field languages compared exactly against the property statement and the repository's own documents (aol.md Limits table, did.md ABNF); DIDDocument.Valid validates all five relationship lists, every method and service; method ids, key material, key type, contexts and services follow the specification; PNFT handlers re-run validation.",
@@ -45,26 +45,26 @@ CHECKS = {
  "C18": ("conversion-guard dominance + linear normal form of index arithmetic over SSA + writer/reader agreement per typed key + language analysis of the separator",
          "Encoder: narrowing to one byte only under len<=255, one length byte then the whole value, index advances by 1+copied, buffer = sum(1+len). Decoder: accept iff idx+1+n<=len(bz) in linear normal form, copies bz[idx+1:idx+1+n], loop while idx<len. Typed keys: count/order/field binding agree between encode and decode (bytes and strings), address format and 8-byte width checked on decode. Separator outside every admitted alphabet. Injectivity/prefix-exactness follow on paper from these premises.",
          "Trusts copy/append/strings.Split/strconv; nothing is executed."),
- "C14": ("shape/provenance of GetSignBytes + exhaustiveness of codec registrations + finite pair analysis of legacy-amino JSON objects",
-         "GetSignBytes of all 14 messages is MustSortJSON(ModuleCdc.MustMarshalJSON(whole msg)); message types = RegisterImplementations set = RegisterConcrete set with distinct amino and proto names; all modules in ModuleBasics, DefaultSignModes; for the 7 legacy-amino-signable types every pair (21) is separated by a registered type name on the signing codec or by a required field absent from the other type. One pair (CreateDID/UpdateDID) is a recorded known finding.",
+ "C14": ("shape/provenance of GetSignBytes + exhaustiveness of codec registrations + finite pair analysis of legacy-amino JSON objects; enumeration of hand-written JSON marshalers on message types; wrapper-codec registration (authz/gov/group); language analysis of string fields (U+FFFD)",
+         "GetSignBytes of all 14 messages is MustSortJSON(ModuleCdc.MustMarshalJSON(whole msg)); message types = RegisterImplementations set = RegisterConcrete set with distinct amino and proto names; all modules in ModuleBasics, DefaultSignModes; for the 7 legacy-amino-signable types every pair (21) is separated by a registered type name on the signing codec or by a required field absent from the other type. One pair (CreateDID/UpdateDID) is a recorded known finding. Hand-written marshalers on signed types are the reviewed json.Marshal-shaped ones; every custom message keeps its type inside MsgExec/MsgSubmitProposal (registered on the wrapper codec or separable); string fields are confined to valid UTF-8 or listed as known findings (F14).",
          "Trusts amino JSON encoder, MustSortJSON, SDK sign-mode handlers, proto encoding injectivity."),
- "C15": ("definite-edge reachability to coin-moving bank functions/interface methods (with positive control) + capability type scan + provenance of GetSigners under path conditions",
-         "No coin-moving bank keeper function or interface method is reachable from the 14 handlers, their stateless methods or the aol/did/pnft block hooks; the x/nft keeper never reads its bank keeper; AddRecord's signers are [feePayer, writer] iff a fee payer is named, else [writer]; all other messages have one signer; DeductFeeDecorator with the fee-grant keeper precedes signature verification.",
+ "C15": ("definite-edge reachability to coin-moving bank functions/interface methods (with positive control) + capability type scan + provenance of GetSigners under path conditions; origin of the fee checker's result; reachability from module-defined ante decorators to custom store writes",
+         "No coin-moving bank keeper function or interface method is reachable from the 14 handlers, their stateless methods or the aol/did/pnft block hooks; the x/nft keeper never reads its bank keeper; AddRecord's signers are [feePayer, writer] iff a fee payer is named, else [writer]; all other messages have one signer; DeductFeeDecorator with the fee-grant keeper precedes signature verification. The fee decorator's checker is nil or returns tx.GetFee(); module-defined ante decorators write no aol/did/pnft state.",
          "Trusts DeductFeeDecorator, baseapp atomicity of runMsgs, bank supply accounting."),
- "C08": ("prefix/family coverage (who-may-call) + field agreement between exporter and importer + absence of authorization guards on the import call tree + loop-shape (no conditional skip) + key/value provenance of exported entries",
-         "Every store family handlers write is exported and imported through the same family's accessors, key type and separator; AOL/DID entries are stored whole and untouched; every Denom/Pnft field (incl. the current Owner) is read on the import call tree; no actor-vs-owner guard on the import path; exported key and value come from the same store entry; no export/import/list loop skips entries; no exporter iterates a Go map.",
+ "C08": ("prefix/family coverage (who-may-call) + field agreement between exporter and importer + absence of authorization guards on the import call tree + loop-shape (no conditional skip) + key/value provenance of exported entries; loop-fresh decode targets; store-key ownership; map lookups of genesis validation vs deletable families",
+         "Every store family handlers write is exported and imported through the same family's accessors, key type and separator; AOL/DID entries are stored whole and untouched; every Denom/Pnft field (incl. the current Owner) is read on the import call tree; no actor-vs-owner guard on the import path; exported key and value come from the same store entry; no export/import/list loop skips entries; no exporter iterates a Go map. Decode targets in list/export loops are fresh per iteration; each custom store key is handed to its own keeper constructor only; genesis validation looks nothing up in a family whose entries handlers delete.",
          "Trusts module manager dispatch, JSON/proto round trips; does not compare query answers."),
- "C17": ("panic-site obligations over the functions reachable from outside-controlled entry points: explicit panics vs ValidateBasic accept condition (unsatisfiability), Must* call-site preconditions, nil-dereference of wire pointers with preconditions propagated to call sites, constant-index/slice bounds vs dominating length facts, library preconditions",
-         "Every panic site (explicit, Must*, nil-deref of nillable wire pointers / generated getter results / query requests, constant index and slice bounds, cipher.NewCTR / pbkdf2.Key / regexp.MustCompile preconditions) in hand-written code reachable from ValidateBasic/GetSigners/GetSignBytes, message and query handlers, the key store, block hooks and the DID codec callbacks has a discharged obligation.",
+ "C17": ("panic-site obligations over the functions reachable from outside-controlled entry points: explicit panics vs ValidateBasic accept condition (unsatisfiability), Must* call-site preconditions, nil-dereference of wire pointers with preconditions propagated to call sites, constant-index/slice bounds vs dominating length facts, library preconditions; division, narrowing and key-conversion preconditions; compiler bounds-check cross-check (thorough)",
+         "Every panic site (explicit, Must*, nil-deref of nillable wire pointers / generated getter results / query requests, constant index and slice bounds, cipher.NewCTR / pbkdf2.Key / regexp.MustCompile preconditions) in hand-written code reachable from ValidateBasic/GetSigners/GetSignBytes, message and query handlers, the key store, block hooks and the DID codec callbacks has a discharged obligation. Also: big/machine-integer division needs a non-zero divisor fact, Int64()/Uint64() an IsInt64()/IsUint64(), []byte→key-type conversions a pinned length; every index/slice site is enumerated and, in the thorough tier, cross-checked against the compiler's unproven bounds checks.",
          "Trusts the SDK, gogoproto Unmarshal (no nil elements), Go runtime; variable-index bounds inside compkey loops are covered by C18's linear-normal-form clauses; resource exhaustion not decided."),
- "C09": ("source-to-sink value-flow of non-deterministic sources over the consensus-reachable scope + order-sensitivity classification of map-range bodies + provenance of stored timestamps",
-         "In the module code reachable from consensus entry points no wall-clock/random/environment/channel/float/%p value flows into a store write, event, response, error or branch (logger/telemetry uses ignored; positive control outside the scope); no goroutine/select; every range over a map has an order-insensitive body; stored timestamps are ctx.BlockTime().",
+ "C09": ("source-to-sink value-flow of non-deterministic sources over the consensus-reachable scope + order-sensitivity classification of map-range bodies + provenance of stored timestamps; local-time-zone renderings as sources; hidden-state channels",
+         "In the module code reachable from consensus entry points no wall-clock/random/environment/channel/float/%p value flows into a store write, event, response, error or branch (logger/telemetry uses ignored; positive control outside the scope); no goroutine/select; every range over a map has an order-insensitive body; stored timestamps are ctx.BlockTime(). Renderings of a time in the node's local zone (time.Unix/Local/In without UTC) do not reach consensus-visible sinks; no process memory is both written and read by block-processing code.",
          "Trusts determinism of SDK/IAVL/gogoproto/stdlib; app-hash equality itself is not decided."),
- "C10": ("no-hidden-state-channel analysis: enumeration of writes/reads of package-level variables and fields of long-lived module structs over the consensus-reachable scope + configuration evaluation of store keys",
-         "No memory outside the KV stores (module globals, keeper/msg-server/app-module fields incl. reference-typed fields of by-value receivers) is both written and read by block-processing code; every store key a keeper opens a store with is created and mounted; the whole key map is mounted and LoadLatestVersion is called; no file/network I/O in scope. This is the structural necessary condition for restart equivalence on the repository's side.",
+ "C10": ("no-hidden-state-channel analysis: enumeration of writes/reads of package-level variables and fields of long-lived module structs over the consensus-reachable scope + configuration evaluation of store keys; type scan for non-persistent store keys; who-may-call of context/committed-store constructors",
+         "No memory outside the KV stores (module globals, keeper/msg-server/app-module fields incl. reference-typed fields of by-value receivers) is both written and read by block-processing code; every store key a keeper opens a store with is created and mounted; the whole key map is mounted and LoadLatestVersion is called; no file/network I/O in scope. This is the structural necessary condition for restart equivalence on the repository's side. No memory/transient store key reaches the module's own keepers; contexts and raw committed stores are obtained only by block processing and genesis export (nothing is written at start-up).",
          "Trusts baseapp/rootmulti/IAVL for the actual stop/restart behaviour and crash points."),
- "C20": ("lock-set analysis of the key store (re-entrancy, deferred release, files-under-lock precondition) + definite-edge reachability from query handlers to store mutators + synchronisation check of every post-init write to shared memory + query-reads-process-memory channel analysis + append-on-shared-slice rule",
-         "Key store: no mutex re-acquired while held, deferred unlocks, directory access only under the lock; queries reach no store mutator and take their context from their own parameter; every post-init write to module globals / long-lived struct fields is under an exclusive mutex, atomic or sync.Map, locations written under a mutex are read under it, and no location written by block processing or queries is read by a query; appends onto package-level slices only on never-reassigned literals.",
+ "C20": ("lock-set analysis of the key store (re-entrancy, deferred release, files-under-lock precondition) + definite-edge reachability from query handlers to store mutators + synchronisation check of every post-init write to shared memory + query-reads-process-memory channel analysis + append-on-shared-slice rule; lock-order graph over mutexes and channel semaphores with wrapper summaries; alias analysis of pooled memory",
+         "Key store: no mutex re-acquired while held, deferred unlocks, directory access only under the lock; queries reach no store mutator and take their context from their own parameter; every post-init write to module globals / long-lived struct fields is under an exclusive mutex, atomic or sync.Map, locations written under a mutex are read under it, and no location written by block processing or queries is read by a query; appends onto package-level slices only on never-reassigned literals. No cycle in the acquisition order of mutexes/semaphores across the module; no function returns memory it also puts back into a sync.Pool.",
          "Trusts baseapp's height-bound query contexts and sync primitives; no schedule is explored, no race detector is run."),
 }
 
